@@ -308,6 +308,9 @@ class Interp(Ops):
             return VClass(name)
         if self.db.lookup(name) is not None:
             return VContractFn(name)
+        rx = self.regex_constant(name)
+        if rx is not None:
+            return rx
         raise Unsupported(f"unknown name {name!r}")
 
     def regex_constant(self, name):
@@ -882,6 +885,8 @@ class Interp(Ops):
         for k in e.keywords:
             if k.arg is None:
                 d = self.eval(k.value, fr)
+                if isinstance(d, VOpt):
+                    d = self.unopt(d)
                 if isinstance(d, VDict):
                     kwargs.update(self.st.heap[(d.ref, "items")])
                 else:
@@ -906,7 +911,7 @@ class Interp(Ops):
             local = "<locals>" in fn.finfo.qualname and c is None
             if fn.finfo.is_async and not awaited:
                 return VCoro(fn, args, kwargs, node)
-            if local or (c is not None and c.inline):
+            if local or (c is not None and (c.inline or (getattr(self, "harness_mode", False) and c.inline_in_harness))):
                 return self.run_body(fn.finfo, fn.frame, args, kwargs, None)
             if c is None:
                 raise Unsupported(f"no contract for callee {fn.finfo.key}")
@@ -926,7 +931,7 @@ class Interp(Ops):
             is_async = c.is_async if c.is_async is not None else (fn.finfo.is_async if fn.finfo else False)
             if is_async and not awaited:
                 return VCoro(fn, args, kwargs, node)
-            if c.inline and fn.finfo is not None:
+            if (c.inline or (getattr(self, "harness_mode", False) and c.inline_in_harness)) and fn.finfo is not None:
                 selfargs = [fn.obj] if fn.obj is not None else []
                 return self.run_body(fn.finfo, None, selfargs + list(args), kwargs, None)
             return self.apply_contract(c, self.argmap_for(fn.finfo, c, fn.obj, args, kwargs), node, awaited=awaited)
@@ -1265,6 +1270,8 @@ class Interp(Ops):
         return False
 
     def setitem(self, base: V, idx: V, v: V):
+        if isinstance(base, VOpt):
+            base = self.unopt(base)
         if isinstance(base, VDict):
             d = dict(self.st.heap[(base.ref, "items")])
             d[self.concrete_key(idx)] = v
